@@ -1316,6 +1316,42 @@ func posfieldsStatic(args []string) error {
 			walkR(k, out)
 		}
 	}
+	// node positions do not depend on how many token types the lexer has (the elided type numbered -64 and its neighbours)
+	{
+		mk := func(n int) *participle.Parser[nodePlain] {
+			var rules []lexer.SimpleRule
+			for i := 0; i < n; i++ {
+				rules = append(rules, lexer.SimpleRule{Name: fmt.Sprintf("K%d", i), Pattern: fmt.Sprintf("@k%d@", i)})
+			}
+			rules = append(rules, lexer.SimpleRule{Name: "Ident", Pattern: `[a-z]+`}, lexer.SimpleRule{Name: "Punct", Pattern: `[()]`},
+				lexer.SimpleRule{Name: "Comment", Pattern: `#[a-z]*#`}, lexer.SimpleRule{Name: "Whitespace", Pattern: `\s+`})
+			p, err := participle.Build[nodePlain](participle.Lexer(lexer.MustSimple(rules)), participle.Elide("Comment", "Whitespace"))
+			if err != nil {
+				return nil
+			}
+			return p
+		}
+		ref := mk(5)
+		for _, n := range []int{57, 58, 59, 60, 61, 62, 63, 64} {
+			p := mk(n)
+			for _, in := range []string{"a ( b c )", " a(b #x# (c d) e ( f ) )  ", "#q# x ( #r# y )"} {
+				var a, b []string
+				v1, e1 := ref.ParseString("", in)
+				v2, e2 := p.ParseString("", in)
+				if e1 != nil || e2 != nil || p == nil {
+					fmt.Printf("BAD\t%q\tlexer with %d rules before Ident: parse errors %v %v\n", in, n, e1, e2)
+					continue
+				}
+				walkP(v1, &a)
+				walkP(v2, &b)
+				status := "OK"
+				if strings.Join(a, " ") != strings.Join(b, " ") {
+					status = "BAD"
+				}
+				fmt.Printf("%s\t%q\tlexer with 5 rules before Ident %v; with %d rules %v\n", status, in, a, n, b)
+			}
+		}
+	}
 	// the token lists and positions of an AST stay what they were when further documents are parsed with the same parser
 	{
 		first, err := pp.ParseString("one.txt", "alpha ( beta gamma ( delta ) )")
